@@ -367,3 +367,21 @@ META["C11"] = {
     "floors": {"quick": {"histories": 2500, "api_calls": 150000, "calls_err": 20000, "no_effect_checks": 30000, "distinct_nontrivial": 2000},
                "thorough": {"histories": 80000, "api_calls": 5000000, "calls_err": 600000, "no_effect_checks": 1000000, "distinct_nontrivial": 60000}},
 }
+
+
+META["C12"] = {
+    "level": "exploration",
+    "rule": "contexts from 8 producers (G_any plain graphs; an unfinalized context with names, quotes, 128-bit constants and every "
+            "annotation kind; G_custom; instantiated; inlined in each mode; compiled by the whole MPC pipeline; optimised) are "
+            "serialized, reloaded, compared (deep_equal, text stability, evaluation with the same seed) and then mutated 150 / 600 "
+            "times over both layers (truncation of envelope and of inner payload, version changes, inner payload that is not a "
+            "context, type confusion at a random JSON path, perturbed ids in dependency / output / name / annotation tables, removed "
+            "fields, duplicated entries, non-UTF-8, garbage, deep nesting); a case is one base context; non-trivial = serialized text "
+            "> 300 bytes; distinct by hash of the text",
+    "assumptions": COMMON_ASSUMPTIONS + [
+        "a mutated text that is accepted is inspected with the invariant walker of C11 through the read-only hook",
+        "panics are captured at the from_slice call",
+    ],
+    "floors": {"quick": {"round_trips": 350, "mutated_texts": 30000, "mutants_rejected": 15000, "distinct_nontrivial": 300},
+               "thorough": {"round_trips": 6000, "mutated_texts": 1500000, "mutants_rejected": 700000, "distinct_nontrivial": 5000}},
+}
